@@ -58,6 +58,7 @@ def write_replay(prop, res, fail, witness=None):
         'property': prop, 'unit': res['unit'], 'engine': res['engine'], 'obligation': obl,
         'message': fail.get('message'), 'function': fail.get('function'), 'in_real_code': fail.get('in_real_code'),
         'verifier_output': fail.get('rendered'), 'checker_cmd': res.get('cmd'),
+        'also_failed_in_same_function': fail.get('also_failed', []),
         'counterexample': witness,
         'note': 'no-failing-input-found' if witness is None else 'failing input replays on the real code',
         'how_to_replay': f"./check {prop} --replay {path}  (re-extracts from the current /repo and re-runs the unit; "
@@ -154,11 +155,21 @@ def main():
         seen.add(key)
         print(f"KNOWN-FINDING: property={prop} {k.get('obligation')} site={k.get('site', '?')} ({f.get('message')})")
     seenv = set()
+    seen_fn = {}
     for r, f in violations:
         key = (r['unit'], f.get('obligation'))
         if key in seenv:
             continue
         seenv.add(key)
+        # one VIOLATION line per (unit, function): further failed obligations of the same function are
+        # consequences of the first one as far as the verifier can tell; they are listed in its replay file
+        fk = (r['unit'], f.get('function'))
+        if fk in seen_fn:
+            seen_fn[fk].setdefault('also_failed', []).append({'obligation': f.get('obligation'), 'message': f.get('message')})
+            continue
+        seen_fn[fk] = f
+        f['also_failed'] = [dict(obligation=g.get('obligation'), message=g.get('message')) for (r2, g) in violations
+                            if r2 is r and g is not f and g.get('function') == f.get('function')]
         witness = f.get('witness')
         path = write_replay(prop, r, f, witness)
         print(f"obligation {f.get('obligation')} of unit {r['unit']} FAILED: {f.get('message')} [{f.get('in_real_code') or f.get('function')}]")
